@@ -36,6 +36,8 @@ from .values import (Internal, SBool, SEnum, SInt, SReal, Sym, SymEscape, Unsupp
                      lift, lift_int, mk_bool, mk_int)
 
 VERIF_ROOT = os.path.dirname(os.path.dirname(os.path.abspath(__file__)))
+# evidence and replay files go to /verif unless VERIF_OUT redirects them (used when checks are run against a scratch copy with a seeded change)
+OUT_ROOT = os.environ.get("VERIF_OUT") or VERIF_ROOT
 CHECK_TIMEOUT_MS = int(os.environ.get("VERIF_SOLVER_TIMEOUT_MS", "60000"))
 
 
@@ -823,7 +825,7 @@ def run_property(reg, tier="quick", seed=0, jobs=None, only=None, level="proof",
             crashes.append((r["name"], r.get("crash")))
     # replay files + output lines
     code = 0
-    os.makedirs(os.path.join(VERIF_ROOT, "replay", prop), exist_ok=True)
+    os.makedirs(os.path.join(OUT_ROOT, "replay", prop), exist_ok=True)
     for name, viol, k in known:
         print(f"KNOWN-FINDING: property={prop} {k.get('what', name)} [{name} :: {viol['label']}]")
     seen = set()
@@ -832,7 +834,7 @@ def run_property(reg, tier="quick", seed=0, jobs=None, only=None, level="proof",
         if key in seen:
             continue
         seen.add(key)
-        fn = os.path.join(VERIF_ROOT, "replay", prop, _safe(name) + "__" + _safe(viol["label"]) + ".json")
+        fn = os.path.join(OUT_ROOT, "replay", prop, _safe(name) + "__" + _safe(viol["label"]) + ".json")
         with open(fn, "w") as fh:
             json.dump({"property": prop, "obligation": name, "label": viol["label"], "inputs": viol["inputs"],
                        "how": viol["how"], "module": reg.module, "verifier_output": r["labels"].get(viol["label"]),
@@ -913,8 +915,8 @@ def write_evidence(reg, results, tier, seed, level, n_obl, n_dis, bounded, known
     ev = {"property_id": reg.prop, "tier": tier, "seed": seed, "level": level, "coverage": cov,
           "assumptions": reg.assumptions, "wall_s": round(wall, 2), "violations": len(violations),
           "technique": technique}
-    os.makedirs(os.path.join(VERIF_ROOT, "evidence"), exist_ok=True)
-    with open(os.path.join(VERIF_ROOT, "evidence", f"{reg.prop}.json"), "w") as fh:
+    os.makedirs(os.path.join(OUT_ROOT, "evidence"), exist_ok=True)
+    with open(os.path.join(OUT_ROOT, "evidence", f"{reg.prop}.json"), "w") as fh:
         json.dump(ev, fh, indent=1, default=str)
 
 
